@@ -223,7 +223,7 @@ def run_rules(mod, ctx: Ctx, only: Optional[set[str]] = None) -> None:
             n_il = index_loops_repo(ctx.repo)
             if n_il:
                 ctx.note(f"index loops rewritten as enumerate / zip (sa/canon.py C9): {n_il}")
-        rep = normalise_repo(ctx.repo, ctx.keep_names)
+        rep = normalise_repo(ctx.repo, ctx.keep_names, compiled_opaque=bool(getattr(mod, "COMPILED_HELPERS_OPAQUE", False)))
         if os.environ.get("SA_NO_STRIP") != "1" and rep["inlined"]:
             from .canon2 import strip_inline_suffixes_repo
 
